@@ -315,6 +315,18 @@ func c16Check(strategy edsv1.ExtendedDaemonSetSpecStrategy, mode edsv1.ExtendedD
 	for i := 0; i < 2 && len(vs) == 0; i++ {
 		round()
 	}
+	// the user removes the canary block while the canary runs (the spec stays an accepted one); whichever controller
+	// runs first afterwards must cope: the replica set the status still names as canary, then the ExtendedDaemonSet
+	if cur := c.EDS("ns1", "foo"); cur != nil && cur.Spec.Strategy.Canary != nil && cur.Status.Canary != nil && len(vs) == 0 {
+		_ = c.EditEDS("ns1", "foo", func(x *edsv1.ExtendedDaemonSet) { x.Spec.Strategy.Canary = nil })
+		c.Advance(11 * time.Second)
+		for _, rs := range c.AllERS() {
+			run(sim.ActorERS, rs.Namespace, rs.Name)
+		}
+		for i := 0; i < 2 && len(vs) == 0; i++ {
+			round()
+		}
+	}
 	if os.Getenv("VERIF_C16_DEBUG") != "" {
 		fmt.Println(strings.Join(c.Trace, "\n"))
 		for _, rs := range c.AllERS() {
